@@ -50,7 +50,7 @@ def root_member(f, i, obj="this"):
         elif k == "BinaryOperator" and n["op"] in ("+", "-"):
             i = f.strip(n["ch"][0])
         elif k == "MemberExpr":
-            if n.get("fieldOf", "").startswith("photospline::splinetable<") and "mtype" in n:
+            if n.get("fieldOf", "").startswith(("photospline::splinetable<", "psv_selftest::splinetable<")) and "mtype" in n:
                 base = f.strip(n["ch"][0]) if n["ch"] else -1
                 o = "this" if base < 0 or f.nodes[base]["k"] == "CXXThisExpr" else f.render(base)
                 return n["member"], depth, o
@@ -117,7 +117,7 @@ def guard_classes(P, f):
     for g in P.functions.values():
         if g.kind == "dtor" and g.d.get("localClassOf") == f.usr:
             for i, cal in g.calls():
-                if cal and cal["name"] == RESET_FN and cal.get("cls", "").startswith("photospline::splinetable<"):
+                if cal and cal["name"] == RESET_FN and cal.get("cls", "").startswith(("photospline::splinetable<", "psv_selftest::splinetable<")):
                     fld = None
                     for a in g.ancestors(i):
                         if g.k(a) == "IfStmt":
@@ -133,7 +133,7 @@ def handler_resets(P, f, h, obj="this"):
     """catch handler h calls clear() on obj and then rethrows (or throws)."""
     has_reset = False
     for i, cal in f.calls(h):
-        if cal and cal["name"] == RESET_FN and cal.get("cls", "").startswith("photospline::splinetable<"):
+        if cal and cal["name"] == RESET_FN and cal.get("cls", "").startswith(("photospline::splinetable<", "psv_selftest::splinetable<")):
             has_reset = True
     throws = any(f.k(i) == "CXXThrowExpr" for i in f.walk(h))
     return has_reset and throws
